@@ -93,8 +93,17 @@ func BuildProto(w *World, o ProtoOpt) *Proto {
 		pr.L.AddEntity(le)
 		pr.Ents = append(pr.Ents, le)
 	}
+	// device addresses of different peers may be prefix-related ("...Wallbox-1", "...Wallbox-12"):
+	// in half of the runs the last peer's address is the first one's with a digit appended
+	// (seed C10-h: bookkeeping cleaned by string prefix)
+	prefixRelated := o.Peers >= 2 && w.T.Bool(1, 2, "prefix-related-device-addresses")
 	for i := 0; i < o.Peers; i++ {
-		p := w.NewPeer(fmt.Sprintf("P%d", i+1), fmt.Sprintf("d:_i:P%d", i+1), pr.L)
+		addr := fmt.Sprintf("d:_i:P%d", i+1)
+		if prefixRelated && i == o.Peers-1 {
+			addr = "d:_i:P12"
+			w.Probe("peers-with-prefix-related-device-addresses")
+		}
+		p := w.NewPeer(fmt.Sprintf("P%d", i+1), addr, pr.L)
 		stdPeerTree(p, w.T.Bool(1, 2, "peer-extra-entity"))
 		pr.Peers = append(pr.Peers, p)
 		if !o.NoConnect {
